@@ -37,8 +37,26 @@ SNIPPETS = ["Mark: inj", "Set1: 1", "Set1: 2", "Short", "Long", "Wait: 0.2s", "B
             "Pause: 0.2s", "Hold: 0.2s"]
 
 
+def _with_reports(run_id, steps):
+    """tag reports after random numbers of ticks (own random stream, so the schedules themselves stay as they are)"""
+    import zlib
+    rnd = random.Random(zlib.crc32(run_id.encode()))
+    out, gap = [], rnd.randint(1, 4)
+    for st in steps:
+        st = dict(st)
+        gap -= 1
+        if gap <= 0:
+            st["report"] = "snapshot" if rnd.random() < 0.1 else "delta"
+            gap = rnd.randint(1, 5)
+        out.append(st)
+    return out
+
+
 def _run(run_id, family, method, steps):
-    r = EngineRun(method)
+    tagtrace = family in ("prog", "rnd")
+    if tagtrace:
+        steps = _with_reports(run_id, steps)
+    r = EngineRun(method, tagtrace=tagtrace)
     try:
         r.run_schedule(steps)
     finally:
@@ -130,7 +148,8 @@ def build(ctx: core.Ctx):
         method = rnd.choice(METHOD_POOL)
         runs.append(_run(f"rnd-{i}", "rnd", method, random_schedule(rnd, rnd.randint(15, 45))))
     from .gen import programs
-    progs = programs.CURATED * (2 if ctx.quick else 10) + programs.enumerated(ctx.quick, ctx.seed)
+    progs = programs.CURATED * (2 if ctx.quick else 10) + programs.enumerated(ctx.quick, ctx.seed) + \
+        programs.random_programs(300 if ctx.quick else 6000, ctx.seed)
     variants = ["plain", "plain", "pausehold", "cancelforce", "inject", "edit", "stoprestart"]
     for i, method in enumerate(progs):
         for j in range(1 if ctx.quick else 3):
@@ -192,6 +211,11 @@ def project_runstate(run):
                 edited = False
             failed, w1, writer, scope, mrestart = [], [], False, False, False
     return {"id": run["id"], "ev": out}
+
+
+def project_tags(run):
+    """events for TagReportTrace.tla"""
+    return {"id": run["id"], "ev": [e for e in run["events"] if e["e"] in ("tags", "report")]}
 
 
 def project_commands(run):
